@@ -150,11 +150,12 @@ def main():
             {"name": "coq", "path": "coq/", "serves_properties": sorted(CLAIMED), "kind_free_text": "Coq 8.16.1 development: Gen (translated from /repo each run), Model, Proofs, Props"},
             {"name": "translator", "path": "tools/translate.py", "serves_properties": sorted(CLAIMED), "kind_free_text": "Rust source -> Gallina definitions (tables, constants, presets, layout extents, atomic orderings)"},
             {"name": "extracted-model", "path": "ocaml/", "serves_properties": sorted(CLAIMED), "kind_free_text": "OCaml extraction of the executable models + line-oriented driver"},
+            {"name": "hn", "path": "harness/hn", "serves_properties": sorted(c for c in CLAIMED if c in ("C06","C07","C08","C09","C11","C12","C13","C18","C19","C20")), "kind_free_text": "Rust scheduler harness (yield-point scheduler, boxcar / protocol histories, par_sort, layout / leak / capacity / column / scratch probes) running nucleo built from /repo with --cfg nucleo_verif"},
             {"name": "hm", "path": "harness/hm", "serves_properties": sorted(c for c in CLAIMED if c in ("C01","C02","C03","C04","C05","C10","C14","C15","C16","C17")), "kind_free_text": "Rust harness running nucleo-matcher built from /repo with --cfg nucleo_verif"},
         ],
         "checks": [],
         "not_applicable": [],
-        "notes": "All checks are `./check <id>`; VERIF_SEED and VERIF_TIER are honoured. known_findings.json lists findings (none suppressed at present; fixed entries suppress nothing).",
+        "notes": "All checks are `./check <id>`; VERIF_SEED and VERIF_TIER are honoured. known_findings.json lists three known findings (K1: C01/C05, K2: C04, K3: C07 - printed as KNOWN-FINDING lines, exit 0) and the defects repaired by fix: commits (fixed entries suppress nothing). When the translator cannot regenerate GenScore.v / GenTables.v the kept file is validated against the built code by values (tools/fallback.py; reported as a note: line and in the evidence field translator_fallback). seeded/ holds 199 confirmed source changes with the verdict of every check that was run on them (seeded/README.md); DESIGN.md section 0 is the build status.",
     }
     for cid in ALL:
         if cid in CLAIMED:
